@@ -37,6 +37,7 @@ using namespace verif;
 namespace IR = Oomd::Config2::IR;
 
 static std::string g_rsName = "r0", g_dgName = "g0";
+static bool g_inRun = false; // inside the kill plugin's run(): mid-run environment events are injected only here
 // ---------------------------------------------------------------- wrapper plugin
 // Forwards everything to a real plugin created from the registry and logs run entry / result.
 class WrapPlugin : public Oomd::Engine::BasePlugin {
@@ -61,7 +62,9 @@ class WrapPlugin : public Oomd::Engine::BasePlugin {
     evEmit(J().str("e", "KRun").num("deadline", dl).str("rs", ac.ruleset_name == g_rsName ? "r0" : "?" + ac.ruleset_name.substr(0, 20))
                .str("dg", ac.detectorgroup == g_dgName ? "g0" : "?" + ac.detectorgroup.substr(0, 20))
                .boolean("hasRs", ctx.getInvokingRuleset().has_value()).num("t", vclockNowMs()));
+    g_inRun = true;
     auto r = inner_->run(ctx);
+    g_inRun = false;
     static const char* names[] = {"CONTINUE", "STOP", "ASYNC"};
     evEmit(J().str("e", "KRet").str("ret", names[(int)r]).num("t", vclockNowMs()));
     return r;
@@ -261,7 +264,7 @@ int main(int argc, char** argv) {
     if (profile == "c03" || profile == "c07") D.plugin = "kill_by_memory_size_or_growth";
     bool rate = D.plugin == "kill_by_io_cost" || D.plugin == "kill_by_pg_scan";
     bool recursive = r.chance(60), dry = r.chance(profile == "c04" ? 55 : 15), always = r.chance(profile == "c05" ? 50 : 15),
-         kernel = r.chance(profile == "c01" || profile == "c04" ? 35 : 15), reap = r.chance(60);
+         kernel = r.chance(profile == "c01" || profile == "c04" || profile == "c17" ? 35 : profile == "c03" ? 25 : 15), reap = r.chance(60);
     int timeout = r.pick(std::vector<int>{0, 1, 2, 5});
     // ----- world
     int nTop = 1 + r.upto(4);
@@ -441,6 +444,50 @@ int main(int argc, char** argv) {
       }
       return o;
     };
+    // ----- a cgroup empties in the MIDDLE of a run (its last process exits): right before one of the plugin's opens.
+    // "kth": before the k-th open under the root, a random populated cgroup; "freeze" / "procs" / "events": the cgroup
+    // whose cgroup.freeze / cgroup.procs / cgroup.events is about to be opened (the windows the kernelkill re-read and
+    // the signalling rounds exist for).  The whole subtree empties; cached statistics of the tick stay as they are.
+    int emptyPct = profile == "c17" || profile == "c03" || profile == "c01" ? r.pick(std::vector<int>{0, 25, 60}) : r.pick(std::vector<int>{0, 0, 25});
+    std::string emptyMode; int emptyCountdown = 0;
+    auto emptyCg = [&](const std::string& p) {
+      for (auto& [q, m] : D.w.nodes) {
+        if (!(q == p || q.compare(0, p.size() + 1, p + "/") == 0)) continue;
+        bool was = m.pop;
+        m.pop = false; m.pids.clear();
+        if (!D.fs.exists(q)) continue;
+        D.fs.write(q, "cgroup.events", "populated 0\nfrozen 0\n");
+        D.fs.write(q, "pids.current", "0\n");
+        D.writeProcs(q);
+        if (was) evEmit(J().str("e", "KEmpty").raw("p", pathChars(q)).str("mode", emptyMode));
+      }
+    };
+    I.onOpen = [&](const std::string& path, int flags) -> int {
+      if (!g_inRun || emptyMode.empty()) return 0;
+      const std::string& root = D.fs.root();
+      if (path.compare(0, root.size() + 1, root + "/") != 0) return 0;
+      auto pos = path.rfind('/');
+      std::string file = path.substr(pos + 1), rel = pos > root.size() ? path.substr(root.size() + 1, pos - root.size() - 1) : "";
+      std::string target;
+      if (emptyMode == "kth") {
+        // not between the kernelkill's fresh look at cgroup.events and its write of cgroup.kill: what the kernel does with
+        // a cgroup that empties at that very moment is not oomd's decision any more
+        if (file == "cgroup.kill" || emptyCountdown-- > 0) return 0;
+        std::vector<std::string> cand;
+        for (auto& [q, m] : D.w.nodes) if (m.pop) cand.push_back(q);
+        if (cand.empty()) { emptyMode.clear(); return 0; }
+        target = r.pick(cand);
+      } else {
+        if (file != "cgroup." + emptyMode || !D.w.nodes.count(rel) || !D.w.nodes[rel].pop) return 0;
+        if (emptyMode == "freeze" && (flags & O_ACCMODE) == O_RDONLY) return 0;
+        if (emptyCountdown-- > 0) return 0;
+        target = rel;
+      }
+      std::string mode = emptyMode;
+      emptyCg(target);
+      emptyMode.clear();
+      return 0;
+    };
     I.onPidfdOpen = [&](int pid) { evEmit(J().str("e", "Reap").num("pid", pid)); return D.pidKind.count(pid) ? 999 : -ESRCH; };
     I.onMrelease = [&](int) { return 0; };
     I.onWrite = [&](const std::string& path, const std::string& data) {
@@ -525,14 +572,20 @@ int main(int argc, char** argv) {
       evEmit(J().str("e", "KEnv").num("t", vclockNowMs()).raw("world", D.worldJson()));
       ctx.refresh();
       ctx.bumpCurrentTick();
+      emptyMode.clear();
+      if (r.chance(emptyPct)) {
+        emptyMode = r.pick(std::vector<std::string>{"kth", "kth", "freeze", "procs", "events"});
+        emptyCountdown = emptyMode == "kth" ? r.upto(40) : emptyMode == "procs" ? r.upto(3) : 0;
+      }
       engine->prerun(ctx);
       engine->runOnce(ctx);
+      emptyMode.clear();
       auto st = Oomd::getStats();
       evEmit(J().str("e", "KStat").num("kills", st[Oomd::CoreStats::kKillsKey]).num("t", vclockNowMs()));
     }
     setDecider([](const CallInfo&) { return Decision{}; });
     g_onSetXattr = nullptr;
-    I.onOpened = nullptr; I.onKill = nullptr; I.onWrite = nullptr; I.onPidfdOpen = nullptr; I.onMrelease = nullptr;
+    I.onOpened = nullptr; I.onOpen = nullptr; I.onKill = nullptr; I.onWrite = nullptr; I.onPidfdOpen = nullptr; I.onMrelease = nullptr;
     evEmit(J().str("e", "KEnd"));
   }
   // ----- systemd_restart, dry and wet (C04): D-Bus calls observed through interposed sd_bus_*
